@@ -13,12 +13,23 @@ TraceInit == l = 0 /\ c = <<>> /\ res = <<>> /\ done = FALSE
 TraceNext == l < Len(Trace) /\ l' = l + 1 /\ UNCHANGED vars
 TraceSpec == TraceInit /\ [][TraceNext]_<<l, vars>>
 
-RecOK(rec) ==
-    IF rec.c.cfg.method = "jwt" THEN rec.obs.ok \in JWTAdmit(rec.c)
-    ELSE HTTPObsOK(rec.c, rec.r, rec.obs.ok, rec.log)
+\* one decision: st = [obs, log, r (http method only)]
+StepOK(x, st) ==
+    IF x.cfg.method = "jwt" THEN st.obs.ok \in JWTAdmit(x)
+    ELSE HTTPObsOK(x, st.r, st.obs.ok, st.log)
 
-Verdicts == l >= 1 => Monitor(RecOK(Trace[l]), [l |-> l])
+\* a sequence record holds one entry per step (rec.steps); every step is judged by the per-request
+\* formula on StepCase(c, i) alone: history independence
+Verdicts ==
+    l >= 1 => LET rec == Trace[l] IN
+              IF IsSeq(rec.c)
+              THEN \A i \in 1..Len(rec.c.steps) : Monitor(StepOK(StepCase(rec.c, i), rec.steps[i]), [l |-> l, step |-> i])
+              ELSE Monitor(StepOK(rec.c, rec), [l |-> l, step |-> 0])
 \* the real code differs from layer 1 (not a verdict)
-Drift    == l >= 1 => (Trace[l].obs.ok = Trace[l].l1ok \/ Emit("DRIFT", [l |-> l]))
+Drift ==
+    l >= 1 => LET rec == Trace[l] IN
+              IF IsSeq(rec.c)
+              THEN \A i \in 1..Len(rec.c.steps) : (rec.steps[i].obs.ok = rec.l1ok[i] \/ Emit("DRIFT", [l |-> l, step |-> i]))
+              ELSE rec.obs.ok = rec.l1ok \/ Emit("DRIFT", [l |-> l, step |-> 0])
 Accepted == TLCGet("stats").diameter - 1 = Len(Trace)
 =============================================================================
